@@ -676,7 +676,16 @@ def run_conc(exe, ops, timeout=60):
     env["MYTH_BIND_WORKERS"] = "0"
     rc, out, err = common.sh([exe], inp="\n".join(ops) + "\n", timeout=timeout, env=env)
     if rc == 3:
-        raise RuntimeError("init_conc controller: " + err[-300:])
+        # the controller's watchdog fired: a participant is stuck between two points.  That is a harness
+        # problem only if the library itself is fine: run the same history free (no controller, every
+        # round as a `stress` round); a hang / crash there is the implementation's
+        free = [("stress " + o[len("round "):].split("|")[0].strip()) if o.startswith("round ") else o for o in ops]
+        rc2, out2, err2 = common.sh([exe], inp="\n".join(free) + "\n", timeout=timeout, env=env)
+        if rc2 == 0:
+            raise RuntimeError("init_conc controller: %s (history %s; the same history passes without the controller)" % (err[-300:], ops))
+        status = ("hang (timeout %d s, also without the schedule controller): a call of the initialisation / finalisation history never returned" % timeout
+                  if rc2 in (-9, 3, 4) else "exit status %d without the schedule controller: %s" % (rc2, " ".join(err2.split()[:30])))
+        return out.splitlines(), status
     status = None if rc == 0 else ("timeout" if rc == -9 else "hang: concurrent callers of the initialisation never returned" if rc == 4
                                    else "exit status %d: %s" % (rc, " ".join(err.split()[:30])))
     return out.splitlines(), status
